@@ -5,6 +5,8 @@
 //! `continuity_streams/` removed, single faults on each cache file), twice on the same store, and again
 //! after more frames were appended beyond the cut.
 //! and — deterministically, from inside the rip_verif points of an append — while further frames are being appended.
+//! Finally real runs: messages posted through the real router with a scripted provider; the frames each run logged
+//! (selection_decided, context_compiled + bundle artifact) are read back and judged the same way.
 //!   correspondence: decision + bundle (ids mapped to seqs / ordinals) vs coq/Model/Compile.v
 //!   independent oracle: (a) equality of bundle + decision JSON across cache states / read paths /
 //!   later frames, (b) the bundle against a straight re-computation from the replayed truth log.
@@ -1066,6 +1068,159 @@ fn short(s: &str) -> String {
     }
 }
 
+// ---------------------------------------------------------------- real runs: the frames a run logs
+/// Posts messages through the REAL router (`ripd::verif::build_app`) with a scripted provider, one run at a
+/// time, with manual checkpoints in between; then reads `continuity_context_selection_decided` /
+/// `continuity_context_compiled` and the bundle artifact of every run back from the truth log and compares them
+/// with the re-computation from the thread as it was at the recorded cut (and with the model).
+#[derive(Clone, Debug, Serialize, Deserialize)]
+enum E2eOp {
+    Post,
+    Checkpoint { msg: u64 },
+}
+struct E2eRun {
+    out: Out,
+    abs: Abs,
+    runs: Vec<RunRec>,
+    anchor: String,
+    spec: Option<Value>,
+    order_ok: bool,
+}
+fn e2e_thread(plan: &[E2eOp], limit: usize, max_refs: usize) -> Result<(String, Vec<E2eRun>), String> {
+    use rv::provider::{sse_event, Scripted, ScriptedProvider, SSE_DONE};
+    use tower::ServiceExt;
+    let scratch = Scratch::new("c08e");
+    let data = scratch.path().join("data");
+    let ws = scratch.path().join("workspace");
+    std::fs::create_dir_all(&ws).unwrap();
+    let nposts = plan.iter().filter(|o| matches!(o, E2eOp::Post)).count();
+    let scripts: Vec<Scripted> = (0..nposts)
+        .map(|i| {
+            let mut body = String::new();
+            body.push_str(&sse_event("response.created", &json!({"type": "response.created", "sequence_number": 0, "response": {"id": format!("resp_{i}")}})));
+            for (n, d) in [format!("answer {i} "), "\u{e9}nd".to_string()].iter().enumerate() {
+                body.push_str(&sse_event("response.output_text.delta", &json!({"type": "response.output_text.delta", "sequence_number": n + 1, "item_id": "m1", "output_index": 0, "content_index": 0, "delta": d})));
+            }
+            body.push_str(&sse_event("response.completed", &json!({"type": "response.completed", "sequence_number": 3, "response": {"id": format!("resp_{i}")}})));
+            body.push_str(SSE_DONE);
+            Scripted::sse_text(&body)
+        })
+        .collect();
+    let sp = ScriptedProvider::start(scripts);
+    let cfg = ripd::verif::OpenResponsesConfig { endpoint: sp.url.clone(), api_key: None, model: Some("scripted".into()), headers: vec![], tool_choice: rip_provider_openresponses::ToolChoiceParam::none(), followup_user_message: None, stateless_history: false, parallel_tool_calls: false };
+    let rt = tokio::runtime::Builder::new_multi_thread().worker_threads(2).enable_all().build().map_err(|e| e.to_string())?;
+    let thread: String = rt.block_on(async {
+        let app = ripd::verif::build_app(data.clone(), ws.clone(), Some(cfg));
+        let call = |r: axum::http::Request<axum::body::Body>| {
+            let app = app.clone();
+            async move {
+                use http_body_util::BodyExt;
+                let resp = app.oneshot(r).await.expect("infallible");
+                let st = resp.status().as_u16();
+                let bytes = resp.into_body().collect().await.map(|b| b.to_bytes()).unwrap_or_default();
+                (st, serde_json::from_slice::<Value>(&bytes).unwrap_or(Value::Null))
+            }
+        };
+        let req = |method: &str, uri: &str, body: Option<Value>| {
+            let b = axum::http::Request::builder().method(method).uri(uri);
+            match body {
+                Some(v) => b.header("content-type", "application/json").body(axum::body::Body::from(v.to_string())).unwrap(),
+                None => b.body(axum::body::Body::empty()).unwrap(),
+            }
+        };
+        let (_, t) = call(req("POST", "/threads/ensure", None)).await;
+        let thread = t.get("thread_id").and_then(|x| x.as_str()).unwrap_or("").to_string();
+        if thread.is_empty() {
+            return Err("POST /threads/ensure gave no thread".to_string());
+        }
+        let mut mids: Vec<String> = vec![];
+        for (i, op) in plan.iter().enumerate() {
+            match op {
+                E2eOp::Post => {
+                    let (st, v) = call(req("POST", &format!("/threads/{thread}/messages"), Some(json!({"content": format!("question {i}")})))).await;
+                    let mid = v.get("message_id").and_then(|x| x.as_str()).unwrap_or("").to_string();
+                    if st != 202 || mid.is_empty() {
+                        return Err(format!("POST message refused: {st} {v}"));
+                    }
+                    // one run at a time: wait for its run_ended frame (generous, load independent)
+                    let t0 = std::time::Instant::now();
+                    loop {
+                        let root = data.parent().unwrap().to_path_buf();
+                        let done = replay_truth(&root, &thread).iter().any(|e| matches!(&e.kind, EventKind::ContinuityRunEnded { message_id, .. } if *message_id == mid));
+                        if done {
+                            break;
+                        }
+                        if t0.elapsed() > Duration::from_secs(240) {
+                            return Err(format!("run for message {i} did not end within 240 s"));
+                        }
+                        tokio::time::sleep(Duration::from_millis(10)).await;
+                    }
+                    mids.push(mid);
+                }
+                E2eOp::Checkpoint { msg } => {
+                    if !mids.is_empty() {
+                        let m = mids[(*msg as usize) % mids.len()].clone();
+                        let (st, v) = call(req("POST", &format!("/threads/{thread}/compaction-checkpoint"), Some(json!({"summary_markdown": format!("summary {i}"), "to_message_id": m})))).await;
+                        if st != 201 {
+                            return Err(format!("checkpoint refused: {st} {v}"));
+                        }
+                    }
+                }
+            }
+        }
+        Ok(thread)
+    })?;
+    drop(rt);
+    drop(sp);
+    // ---- read back
+    let root = scratch.path().to_path_buf();
+    let truth = replay_truth(&root, &thread);
+    // reply text of every session, from the truth log (own reader)
+    let raw = std::fs::read(data.join("events.jsonl")).unwrap_or_default();
+    let mut text_of: HashMap<String, String> = HashMap::new();
+    for line in raw.split(|b| *b == b'\n') {
+        if let Ok(ev) = serde_json::from_slice::<Event>(line) {
+            if let EventKind::OutputTextDelta { delta } = &ev.kind {
+                text_of.entry(ev.session_id.clone()).or_default().push_str(delta);
+            }
+        }
+    }
+    let mut out = vec![];
+    for (pos, e) in truth.iter().enumerate() {
+        let EventKind::ContinuityContextCompiled { run_session_id, bundle_artifact_id, from_seq, from_message_id, .. } = &e.kind else { continue };
+        let decided = truth.iter().enumerate().find(|(_, d)| matches!(&d.kind, EventKind::ContinuityContextSelectionDecided { run_session_id: r, .. } if r == run_session_id));
+        let Some((dpos, d)) = decided else {
+            out.push(E2eRun { out: Out::Err("no selection_decided frame for this run".into()), abs: abstract_truth(vec![], &[]), runs: vec![], anchor: String::new(), spec: None, order_ok: false });
+            continue;
+        };
+        let dv = serde_json::to_value(d).unwrap();
+        let decision = json!({
+            "compiler_id": dv["compiler_id"], "compiler_strategy": dv["compiler_strategy"], "limits": dv["limits"],
+            "compaction_checkpoint": dv.get("compaction_checkpoint").cloned().unwrap_or(Value::Null),
+            "compaction_checkpoints": dv.get("compaction_checkpoints").cloned().unwrap_or(json!([])),
+            "resets": dv.get("resets").cloned().unwrap_or(json!([])),
+            "reason": dv.get("reason").cloned().unwrap_or(Value::Null),
+        });
+        let blob = ws.join(".rip").join("artifacts").join("blobs").join(bundle_artifact_id);
+        let bundle = std::fs::read(&blob).ok().and_then(|b| serde_json::from_slice::<Value>(&b).ok()).unwrap_or(Value::Null);
+        let o = Out::Ok { decision, bundle, from_seq: *from_seq, from_message_id: from_message_id.clone() };
+        // the thread as it was at the recorded cut
+        let prefix: Vec<Event> = truth.iter().filter(|x| x.seq <= *from_seq).cloned().collect();
+        let mut runs: Vec<RunRec> = vec![];
+        for x in &prefix {
+            if let EventKind::ContinuityRunSpawned { run_session_id, message_id, .. } = &x.kind {
+                runs.push(RunRec { id: run_session_id.clone(), msg: message_id.clone(), log_text: text_of.get(run_session_id).cloned().unwrap_or_default(), snap: 0, snap_text: String::new() });
+            }
+        }
+        let abs = abstract_truth(prefix, &runs);
+        let anchor = from_message_id.clone().unwrap_or_default();
+        let spec = spec_bundle(&abs, &runs, &anchor, limit, max_refs, true);
+        let msg_ok = matches!(&d.kind, EventKind::ContinuityContextSelectionDecided { message_id, .. } if *message_id == anchor);
+        out.push(E2eRun { out: o, abs, runs, anchor, spec, order_ok: dpos < pos && msg_ok });
+    }
+    Ok((thread, out))
+}
+
 fn read_limits(repo: &Path) -> (usize, usize) {
     // the documented limits as the source states them (the model gets the same numbers through Gen/CompileConsts.v)
     let src = std::fs::read_to_string(repo.join("crates/ripd/src/context_compiler.rs")).unwrap_or_default();
@@ -1184,6 +1339,62 @@ fn main() {
                     class: class.clone(),
                     replay: if first && n == 0 { json!({"case": shrink_case(case, &class, limit, max_refs)}) } else { json!({"see": "first witness of this class", "case": if ids.len() == 1 && n == 0 { serde_json::to_value(case).unwrap() } else { Value::Null }}) },
                 });
+            }
+        }
+    }
+    // ---- real runs through the router (sequential, deterministic)
+    if a.replay.is_none() {
+        let mut r = Rng::new(a.seed ^ 0xE2E);
+        let nthreads = if a.thorough() { 10 } else { 3 };
+        for t in 0..nthreads {
+            let mut plan = vec![];
+            let nposts = if t == 0 { limit as u64 + 3 } else { r.range(2, 9) };
+            for k in 0..nposts {
+                plan.push(E2eOp::Post);
+                if k > 0 && r.chance(1, 3) {
+                    plan.push(E2eOp::Checkpoint { msg: r.below(k + 1) });
+                }
+            }
+            res.evaluations += 1;
+            match std::panic::catch_unwind(|| e2e_thread(&plan, limit, max_refs)) {
+                Ok(Ok((thread, runs))) => {
+                    res.bump_by("e2e_runs", runs.len() as u64);
+                    if runs.len() != plan.iter().filter(|o| matches!(o, E2eOp::Post)).count() {
+                        res.oracle_violations.push(OracleViolation { case_id: -200_000 - t as i64, what: format!("{} runs were started, {} context_compiled frames are in the thread", plan.iter().filter(|o| matches!(o, E2eOp::Post)).count(), runs.len()), class: "run_frames_missing".into(), replay: json!({"e2e_plan": plan}) });
+                    }
+                    for run in &runs {
+                        res.oracle_checks += 3;
+                        let mut bad: Option<String> = None;
+                        if !run.order_ok {
+                            bad = Some("selection_decided frame missing, after context_compiled, or for another message".into());
+                        } else if let Some(w) = consistency(&run.out, &thread, limit, max_refs) {
+                            bad = Some(w);
+                        } else if view_of(&run.out) != run.spec {
+                            bad = Some(format!("logged bundle / decision => {}   recomputed from the thread at the recorded cut => {}", brief(&run.out), run.spec.as_ref().map(|x| short(&x.to_string())).unwrap_or("error".into())));
+                        }
+                        let mut cid: i64 = -200_000 - t as i64;
+                        if !a.oracle_only() {
+                            let term = format!(
+                                "{{| c_log := {}; c_runs := {}; c_anchor := {}; c_expect := {} |}}",
+                                coq_list(&run.abs.truth, |e| run.abs.coq_frame(e)),
+                                run.abs.coq_runs(&run.runs),
+                                run.abs.seq_of_event.get(&run.anchor).copied().unwrap_or(UNKNOWN),
+                                coq_list_n(&enc_out(&run.abs, &run.out))
+                            );
+                            let id = w.push(term);
+                            cid = id as i64;
+                            if res.case_index.len() < 4000 {
+                                res.case_index.insert(id.to_string(), json!({"e2e_plan": plan, "anchor": run.anchor}));
+                            }
+                        }
+                        if let Some(what) = bad {
+                            *seen_classes.entry("run_frames_differ_from_truth_recomputation".into()).or_insert(0) += 1;
+                            res.oracle_violations.push(OracleViolation { case_id: cid, what, class: "run_frames_differ_from_truth_recomputation".into(), replay: json!({"e2e_plan": plan}) });
+                        }
+                    }
+                }
+                Ok(Err(e)) => res.oracle_violations.push(OracleViolation { case_id: -200_000 - t as i64, what: format!("real run phase failed: {e}"), class: "run_phase_failed".into(), replay: json!({"e2e_plan": plan}) }),
+                Err(_) => res.oracle_violations.push(OracleViolation { case_id: -200_000 - t as i64, what: "real run phase panicked".into(), class: "panic".into(), replay: json!({"e2e_plan": plan}) }),
             }
         }
     }
